@@ -148,6 +148,10 @@ pub fn generate(tier: Tier, rng: &mut Rng) -> Vec<Case> {
             long_v.clone(), format!("{long_v} + 1"), format!("{long_f}(1)"), format!("a.{long_f}(b)"), format!("[1].map(x, {long_v} + x)"), format!("{long_f}({long_v})"), format!("has({long_v}.f)"),
             "g(a.g(b), c)".to_string(), "a.g(b.g(c))".to_string(), "h(x.h(y.h(d)), b)".to_string(), "g(g(a.g(b)))".to_string(), "k(a.k(b), c.k(d))".to_string(), "g(a.h(b), c)".to_string(), "g(c, a.g(b))".to_string(), "a.g(b).g(c).g(d)".to_string(),
             "size(a.size(), b)".to_string(), "g(m.g(), y)".to_string(),
+            // names that look internal but are ordinary identifiers
+            "__a + 1".to_string(), "[1, 2].map(x, x + __offset)".to_string(), "__result__ == 1".to_string(), "_a + a_ + a__b".to_string(), "__f(1)".to_string(), "a.__g(b)".to_string(), "has(__m.f)".to_string(), "[__x].all(__y, __y == __z)".to_string(),
+            // names inside map and struct literals, as keys, values and arguments
+            "{'k': a}".to_string(), "{a: 1}".to_string(), "{'k': g()}".to_string(), "{1: a + 1}".to_string(), "{a: {b: c}}".to_string(), "{g(a): h(b)}".to_string(), "T{f: a, g: h(b)}".to_string(), "[{a: b}].map(x, {x: c})".to_string(),
         ];
         for src in srcs {
             let Ok(ast) = cel_parser::Parser::new().parse(&src) else { continue };
